@@ -35,10 +35,10 @@ def slotOf (ti : TreeInfo) (g : Nat) : Nat := (mapCapnum (mainCfg ti) (g : Int))
 
 /-- the world of one attempt of the program of `t` -/
 def worldOf (ti : TreeInfo) (t : GoNode) (TPx : TP) (env : VM.Env) (se : Spec.Env)
-    (hrel : EnvRel TPx (codeFromTree (mainCfg ti) t).2.sets env se) : World :=
+    (hrel : EnvRel TPx (codeFromTree (mainCfg ti) t).2.sets env se) (hlen : se.n ≤ 2147483647) : World :=
   { X := { p := emit ti t, env := env, se := se, sl := slotOf ti },
     TPx := TPx, caps := (writerCaps ti).2, fin := (codeFromTree (mainCfg ti) t).2,
-    hrel := hrel, hstr := rfl, hnsets := rfl, hsl := fun _ => rfl }
+    hrel := hrel, hstr := rfl, hnsets := rfl, hsl := fun _ => rfl, hlen := hlen }
 
 theorem instrAt_of_split {p : Prog} {pre post : Code} {i : Instr} (hc : p.codes = (flatten (pre ++ i :: post)).toArray)
     (hop : i.op < 1024) : InstrAt p (codeLen pre) i := by
@@ -99,7 +99,7 @@ structure Agrees (ti : TreeInfo) (se : Spec.Env) (pat : Pat) (i : Nat) (s : VMSt
 /-- **the refinement on the fragment of the tiers `≤ maxTier`** -/
 theorem compile_correct_upto (ti : TreeInfo) (t : GoNode) (TPx : TP) (env : VM.Env) (se : Spec.Env) (pat : Pat) (i : Nat)
     (hfrag : InFrag maxTier TPx ti t = true) (hwf : treeWf ti t = true) (hpat : toPatRoot TPx false t = some pat)
-    (hrel : EnvRel TPx (codeFromTree (mainCfg ti) t).2.sets env se) (hi : i ≤ se.n) :
+    (hrel : EnvRel TPx (codeFromTree (mainCfg ti) t).2.sets env se) (hi : i ≤ se.n) (hlen : se.n ≤ 2147483647) :
     ∃ s0 s n, VM.init (emit ti t) (i : Int) = .ok s0 ∧
       (∀ fuel, n ≤ fuel → (VM.run (emit ti t) env fuel s0).1 = .done s) ∧ Agrees ti se pat i s := by
   obtain ⟨_, htier, _, hslot0⟩ := inFrag_spec hfrag
@@ -107,7 +107,7 @@ theorem compile_correct_upto (ti : TreeInfo) (t : GoNode) (TPx : TP) (env : VM.E
   simp only [treeWf, Bool.and_eq_true] at hwf
   obtain ⟨⟨hok, hcaps⟩, hbd⟩ := hwf
   obtain ⟨hlb, hroot, hstop⟩ := codeAt_root ti t hok
-  let W := worldOf ti t TPx env se hrel
+  let W := worldOf ti t TPx env se hrel hlen
   have hpr : toPat TPx false t = some (.cap 0 pat) := by
     rw [ht]; simp [toPat, hbody]
   -- slot of group 0
